@@ -279,7 +279,7 @@ impl GenState {
             ExtendFromSlice => st.vals = vals!(rng, len_arg(rng, free, n)),
             Extend => {
                 st.vals = vals!(rng, len_arg(rng, free, n));
-                st.b = rng.below(4) as usize;
+                st.b = rng.below(5) as usize;
             }
             MakeContiguous => {
                 st.a = rng.below(8) as usize;
@@ -325,7 +325,7 @@ impl GenState {
             }
             FromIter => {
                 st.vals = vals!(rng, len_arg(rng, n, n));
-                st.b = rng.below(3) as usize;
+                st.b = rng.below(4) as usize;
             }
             EqSlice => {
                 st.a = rng.below(8) as usize;
@@ -459,7 +459,7 @@ impl GenState {
             },
             FaultKind::Clone => match st.op {
                 ExtendFromSlice => k.min(n),
-                Extend if st.b % 4 == 3 => k,
+                Extend if st.b % 5 == 3 => k,
                 Fill => n.saturating_sub(1),
                 FillSpare => (n - len.min(n)).saturating_sub(1),
                 CloneTo | CloneFrom | ToVec => len,
@@ -472,7 +472,7 @@ impl GenState {
                 _ => 0,
             },
             FaultKind::Iter => match st.op {
-                Extend if st.b % 4 != 3 => k + 1,
+                Extend if st.b % 5 != 3 => k + 1,
                 FromIter => k + 1,
                 _ => 0,
             },
@@ -496,7 +496,7 @@ impl GenState {
 fn user_kind_for(op: Op, st: &Step, rng: &mut Rng) -> FaultKind {
     match op {
         FillWith | FillSpareWith => FaultKind::Closure,
-        Extend if st.b % 4 != 3 => FaultKind::Iter,
+        Extend if st.b % 5 != 3 => FaultKind::Iter,
         FromIter => FaultKind::Iter,
         CmpBufs | EqSlice | DebugFmt | CrossCmp => FaultKind::Cmp,
         Iter | Range | IterMut | RangeMut => FaultKind::Cmp,
